@@ -56,6 +56,8 @@ def fresh_of(ex, st, shape, name):
         if shape == "dna":
             st.assume(s.forall(lambda v: z3.Or(v == 65, v == 67, v == 71, v == 84)))
         return s
+    if shape.startswith("list_int[") and shape.endswith("]"):
+        return fresh_seq(name, "list", "int", n=iv(int(shape[9:-1])))
     if shape in ("bits", "list_int", "nd_int", "nd_bits", "nd_bool", "list_char"):
         kind = "nd" if shape.startswith("nd") else "list"
         elem = "char" if shape == "list_char" else ("bool" if shape == "nd_bool" else "int")
